@@ -519,6 +519,29 @@ def postCost (s : State) (h : Int) (fs mp ex : Int) (jp : Dec) : Int :=
 /-- provider share of that price -/
 def postSpc (s : State) (cost : Int) : Int := Dec.trunc (Dec.mul (Dec.ofInt cost) (postSpr s.params))
 
+/-- A pay-once post only succeeds when the gauge it creates ends before 10000-01-01 (later instants
+cannot be stored: the timestamp codec panics and the transaction fails).  Consequently every gauge
+end — and every difference of gauge instants in whole microseconds — fits comfortably in int64:
+the reward block's `UnixMicro` arithmetic cannot wrap. -/
+theorem C04_payonce_gauge_end_representable {s s' : State} {h now : Int} {creator merkle : String}
+    {fs mp ex pt : Int} {note : String} {nv : Bool} {jp : Dec} {gid gacc : String}
+    (hs : postFile s h now creator merkle fs mp ex pt note nv jp gid gacc = some s') (hex : ex > 0) :
+    0 < postDays h ex ∧ now + postDays h ex * dayNs < protoMaxNs ∧
+    Int.tdiv (now + postDays h ex * dayNs) 1000 < 2 ^ 62 := by
+  simp only [postFile, bind, Option.bind_eq_some_iff, req_eq_some] at hs
+  obtain ⟨_, -, _, -, hs⟩ := hs
+  simp only [hex, if_true, Option.bind_eq_some_iff, req_eq_some] at hs
+  obtain ⟨_, hd, -⟩ := hs
+  have h1 : 0 < postDays h ex := hd.1
+  have h2 : now + postDays h ex * dayNs < protoMaxNs := hd.2
+  refine ⟨h1, h2, ?_⟩
+  have h3 : protoMaxNs = 253402300800000000000 := by decide
+  rw [h3] at h2
+  have : Int.tdiv (now + postDays h ex * dayNs) 1000 ≤ 253402300800000000 := by
+    rw [← Canine.tdiv_eq]; unfold Canine.tdiv; split <;> split <;> omega
+  have : (2:Int) ^ 62 = 4611686018427387904 := by decide
+  omega
+
 /-- **Pay-once `postFile`.**  The payer is debited exactly the cost, the gauge account credited
 exactly the provider share `trunc(cost·(1 − ref/100 − pol/100))`, which is also exactly what the
 gauge records; the remainder stays in the module account; nothing else moves (general balance
